@@ -222,10 +222,11 @@ EDGE_STR = [0x41, 0x61, 0x20, 0x7E, 0x7F, 0xFF, 0x79, 0x50, 0x4F, 0x22, 0x80, 0x
 class ValueGen:
     """valid objects for generated classes (slot view: hardcoded named fields hold their literal)"""
 
-    def __init__(self, tree, rng, plain_strings=False):
+    def __init__(self, tree, rng, plain_strings=False, free_optionals=False):
         self.R = Resolver(tree)
         self.rng = rng
         self.plain = plain_strings
+        self.free_optionals = free_optionals     # optional fields independently None (any object the constructor accepts)
 
     def gstr(self, n=None, maxn=6, chunked=False):
         rng = self.rng
@@ -282,7 +283,7 @@ class ValueGen:
                     v = {'s': [ord(c) for c in i['text']]} if ty['k'] == 'str' else ({'i': int(i['text'])} if ty['k'] == 'int' else {'b': i['text'] == 'true'})
                 else:
                     optional = str(a.get('optional', '')).lower() == 'true'
-                    if optional and (st['none'] or rng.random() < 0.4):
+                    if optional and ((st['none'] and not self.free_optionals) or rng.random() < 0.4):
                         st['none'] = True
                         fields.append([name, None])
                         env[name] = None
@@ -308,7 +309,7 @@ class ValueGen:
                 name = a['name']
                 ty = self.R.rtype(a['type'])
                 optional = str(a.get('optional', '')).lower() == 'true'
-                if optional and (st['none'] or rng.random() < 0.4):
+                if optional and ((st['none'] and not self.free_optionals) or rng.random() < 0.4):
                     st['none'] = True
                     fields.append([name, None])
                     continue
@@ -505,6 +506,8 @@ class SpecGen:
 
     def instr(self, st, last):
         rng = self.rng
+        if st.get('opt_after_chunked'):
+            return      # optional fields were reached: nothing required may follow in this body
         ctxn = ('case-' if st['in_case'] else '') + ('chunked' if st['chunked'] else 'plain')
         if st['unbounded_open']:
             # after an unbounded item only a break (in chunked mode) makes further items meaningful
@@ -706,6 +709,11 @@ class SpecGen:
             inner['ints'] = st['ints']
             for j in range(rng.randrange(1, 5)):
                 self.instr(inner, last=True)
+            if not st['chunked'] and not inner['unbounded_open'] and rng.random() < 0.3:
+                # optional fields in two different chunks (a <break> resets the 'optional reached' state)
+                inner['body'] += [F(self.name(st), 'char', optional='true'), dict(BR), F(self.name(st), rng.choice(['char', 'short', 'string']), optional='true')]
+                st['opt_after_chunked'] = True
+                self.feat('field', 'optional', 'both-sides-of-break')
             b.append(CH(*inner['body']))
             st['fixed'] = None
             st['bounded'] = st['bounded'] and inner['bounded']
@@ -950,5 +958,21 @@ def obj_mutants(R, vg, cls, body, o, depth=0):
                 for ccls, cb in classes[:1]:
                     try:
                         yield (f"{cls}.{dn} is a {ccls} although the selected case is empty / no case matches", with_field(o, dn, vg.obj(ccls, cb, depth + 1)))
+                    except Exception:
+                        pass
+            # the switch field set to a value that no case handles (switch without default), with case data present
+            has_default = any(str(c['attrs'].get('default', '')).lower() == 'true' for c in i['cases'])
+            fty = vg.field_type(body, fname)
+            if not has_default and classes and fty is not None and fty['k'] in ('int', 'enum') and flds.get(fname) is not None:
+                used = set()
+                for c in i['cases']:
+                    cv = c['attrs'].get('value')
+                    if cv is not None:
+                        used.add(int(cv) if cv.lstrip('-').isdigit() else dict(fty.get('values', [])).get(cv))
+                z = next((x for x in range(0, IMAX[fty['it']] + 1) if x not in used), None)
+                if z is not None:
+                    try:
+                        o2 = with_field(o, fname, {'e': fty['name'], 'v': z} if fty['k'] == 'enum' else {'i': z})
+                        yield (f"{cls}.{fname} = {z} matches no case but {cls}.{dn} carries a {classes[0][0]}", with_field(o2, dn, vg.obj(classes[0][0], classes[0][1], depth + 1)))
                     except Exception:
                         pass
